@@ -198,8 +198,8 @@ theorem hbit_facts (first0 p v b : Nat) (tl : List Nat) (hp1 : 1 ≤ p) (hp : p 
 
 /-- Reading back a string literal whose first byte `b` has already been consumed. -/
 theorem readPrefixedStringWithByte_append (H : Huff)
-    (hdec : ∀ x, H.dec (H.enc x) = some x) (hlen : ∀ x, (H.enc x).length = H.encLen x)
-    (first0 p : Nat) (hp1 : 1 ≤ p) (hp : p ≤ 7) (hf : first0 % 2 ^ (p + 1) = 0) (str : List Nat) (hstr : str.length < 2 ^ 62)
+    (str : List Nat) (hdec : H.dec (H.enc str) = some str) (hlen : (H.enc str).length = H.encLen str)
+    (first0 p : Nat) (hp1 : 1 ≤ p) (hp : p ≤ 7) (hf : first0 % 2 ^ (p + 1) = 0) (hstr : str.length < 2 ^ 62)
     (b : Nat) (tl : List Nat) (henc : appendPrefixedString H first0 p str = b :: tl)
     (s : St) (t : List Nat) (hd : s.dead = false) (hpr : s.primed = true)
     (hdata : s.data = tl ++ t) (hlim : (tl.length : Int) ≤ s.lim) :
@@ -235,7 +235,7 @@ theorem readPrefixedStringWithByte_append (H : Huff)
       · exact ⟨tl', rfl⟩
   split at henc
   · rename_i hh
-    rw [← hlen str] at henc hh
+    rw [← hlen] at henc hh
     obtain ⟨s1, s3, hr, hc, hr3, hadv, tl', hpi⟩ := key (first0 + 2 ^ p) (H.enc str)
       (hbit_facts first0 p 0 0 [] hp1 hp hf).1 (by omega) henc
     have hbit := (hbit_facts first0 p (H.enc str).length b tl' hp1 hp hf).2.2.1 hpi
